@@ -37,7 +37,7 @@ def run_case(spec, ctx):
     cn = out["counters"]
     prof = Profile(mod=False, int_literals=True, ccond=False, funcs=["exp", "sin", "cos", "sqrt", "abs", "log"])
     ms = models.gen_model(rng, prof, depth=2, n_comp=spec.get("n_comp", 2), n_inter=rng.choice([3, 5, 8, 12]), n_states=rng.choice([2, 3, 4, 5]), shape=rng.choice(["random", "unused", "diamond", "fan"]))
-    perms = list(textmut.permutations(ms, rng, n=8 if spec.get("tier") == "quick" else 20))
+    perms = list(textmut.permutations(ms, rng, n=8 if spec.get("tier") == "quick" else 20, split_declarations=spec["i"] % 3 == 1))
     base_text = perms[0][1]
     out["hash"] = models.structural_hash(base_text)
     ref = RefModel.from_text(base_text)
